@@ -153,8 +153,9 @@ func main() {
 	samples := flag.Int("samples", 3, "include scenario+history for the first n runs")
 	histMax := flag.Int("histmax", 200, "history lines kept per outcome")
 	flag.BoolVar(&debugPolicy, "debug", false, "replay: record the policy state after every policy step in the history")
+	procs := flag.Int("procs", 2, "GOMAXPROCS of this worker (the simulation runs one task at a time; results must not depend on it)")
 	flag.Parse()
-	runtime.GOMAXPROCS(2)
+	runtime.GOMAXPROCS(*procs)
 	pd := props[*prop]
 	if pd == nil {
 		fmt.Fprintf(os.Stderr, "unknown property %q\n", *prop)
